@@ -133,7 +133,7 @@ func (w *World) checkDeliveryDir(v *rpcView, dir string, sends []OpRec, recvs []
 			// for the request direction only sends that completed before the
 			// client's half-close count; they all do (same actor, sequential).
 			if got < want {
-				w.Violate("C01", "lost-message:"+dir, "rpc %s %s direction: receiver was told end-of-stream after %d message(s) but %d had been successfully submitted before", v.id, dir, got, want)
+				w.Violate("C01", "lost-message:"+dir, "rpc %s %s direction: receiver was told end-of-stream after %d message(s) but %d had been successfully submitted before\n%s", v.id, dir, got, want, dumpRecs(v.all))
 			}
 		}
 	}
@@ -301,4 +301,12 @@ func mdDiff(want, got metadata.MD) string {
 		}
 	}
 	return ""
+}
+
+func dumpRecs(recs []OpRec) string {
+	var b strings.Builder
+	for _, r := range recs {
+		fmt.Fprintf(&b, "  [%d..%d] %s %s %s size=%d got=%d err=%q\n", r.CallSeq, r.RetSeq, r.Actor, r.Side, r.K, r.Size, r.GotSize, r.Err)
+	}
+	return b.String()
 }
